@@ -1181,11 +1181,11 @@ theorem tail_call_simulates {k : Nat} {self h : String} {args : List Expr} (hh :
     (hc : (compile isFn c (.call (.sym h) args)).run gs = .ok r) (hfn : FnameOk self c)
     {ps : List String} {rest : Option String} (hkn : KnownOk c gs ps rest) (hps : ∀ p ∈ ps ++ rest.toList, okParam p = true)
     {m₁ : Nat → Nat} {s₁ : St} {rs₁ : Ref.St} {env vid : Nat} {D : List (Option Val)} {m : Nat → Nat} {s : St} {rs : Ref.St}
-    {cenv : Nat} {pre post : List Instr}
-    (hact : InAct m₁ s₁ rs₁ env vid D c.scopes m s rs) (hnargs : (fnOf s₁ vid).nargs = ps.length)
+    {cenv f₀ : Nat} {pre post : List Instr}
+    (hact : InAct m₁ s₁ rs₁ env vid D f₀ c.scopes m s rs) (hnargs : (fnOf s₁ vid).nargs = ps.length)
     (hva : (fnOf s₁ vid).varargs = rest.isSome) (hpa : (fnOf s₁ vid).params = ps ++ rest.toList)
     (hrel : RelF m s rs cenv) (hseg : Seg s pre r.1.1 post) :
-    SimT r.1.1 s₁ env D m s rs cenv (Ref.eval (k + 2) (.call (.sym h) args) cenv rs) := by
+    SimT r.1.1 s₁ env D f₀ m s rs cenv (Ref.eval (k + 2) (.call (.sym h) args) cenv rs) := by
   obtain ⟨_, _, _, hA, hU, _, _, _, _, _, _, hV, _, _, _, _, _, _, _, _, _, hlow⟩ := fclaims (k + 1)
   exact simT_selfcall hV hA hU (fclaimG (fun j hj => hlow j (Nat.lt_succ_of_lt hj)) hA) hh hhead hfa hself isFn c gs r hc hfn
     hkn hps hact hnargs hva hpa hrel hseg
